@@ -158,6 +158,47 @@ fn placements() -> Vec<Case> {
     let mut c = Case::new("path_with_directory", vec![st(StmtKind::Import("dir/inner".into(), None)), print_stmt(get(var("inner"), "name")), st(StmtKind::Import("dir/inner".into(), Some("other".into()))), print_stmt(bin(BinOp::Eq, var("other"), var("inner")))]);
     c.modules = sub;
     out.push(c);
+    // two modules with the same file name in different directories: the one imported at top level is main's
+    // global `util`; the other, imported without an alias inside a function / block / loop body / lambda, is
+    // a local `util` there - every use in that scope means the local one, and main's global is untouched
+    for place in 0..4 {
+        let mut m2 = BTreeMap::new();
+        for d in ["x", "y"] {
+            m2.insert(
+                format!("{}/util", d),
+                ModuleSource { program: Some(vec![print_stmt(s(&format!("load {}/util", d))), var_stmt("name", s(&format!("util of {}", d))), fn_stmt(func("f", &[], vec![st(StmtKind::Return(Some(var("name"))))]))]), compile_error: false },
+            );
+        }
+        let uses = vec![
+            st(StmtKind::Import("y/util".into(), None)),
+            print_stmt(get(var("util"), "name")),
+            expr_stmt(set(var("util"), "name", s("changed where y/util is local"))),
+            print_stmt(invoke(var("util"), "f", vec![])),
+            expr_stmt(assign("seen", var("util"))),
+        ];
+        let mut main = vec![st(StmtKind::Import("x/util".into(), None)), print_stmt(get(var("util"), "name")), var_stmt("seen", Expr::Nil)];
+        match place {
+            0 => {
+                main.push(fn_stmt(func("scope", &[], uses)));
+                main.push(expr_stmt(call(var("scope"), vec![])));
+            }
+            1 => main.push(block(uses)),
+            2 => main.push(st(StmtKind::For("round".into(), Expr::VecLit(vec![num(1.0), num(2.0)]), uses))),
+            _ => {
+                main.push(var_stmt("scope", lambda_block(&[], uses)));
+                main.push(expr_stmt(call(var("scope"), vec![])));
+            }
+        }
+        main.push(print_stmt(bin(BinOp::Eq, var("seen"), var("util"))));
+        main.push(print_stmt(get(var("util"), "name")));
+        main.push(print_stmt(get(var("seen"), "name")));
+        main.push(st(StmtKind::Import("y/util".into(), Some("other".into()))));
+        main.push(print_stmt(bin(BinOp::Eq, var("other"), var("seen"))));
+        main.push(print_stmt(get(var("other"), "name")));
+        let mut c = Case::new("same_file_name_in_two_directories", main);
+        c.modules = m2;
+        out.push(c);
+    }
     // a cycle through three modules entered from main; and main's module object is not importable state
     let mut cyc = BTreeMap::new();
     cyc.insert("a".to_string(), ModuleSource { program: Some(module_body("a", &["b"])), compile_error: false });
@@ -493,7 +534,7 @@ pub fn run(ctx: &Ctx) -> Report {
     mcheck::fill_report(
         &mut report,
         &stats,
-        "every import graph over {main, a, b, c}: each of the 6 module-to-module edges, 3 self-loops and 3 edges from main independently present or absent (4096 graphs; the quick tier skips those where main imports nothing); every import inside a module sits in its own try/catch and is followed by a use; every module prints when its body runs, defines the same global names, and reads every one of the 30 built-in names; main reads, writes and calls through each module object, imports it again under an alias and compares identity, and probes that nothing leaked. Plus placements: import inside a function called 0/1/2 times, missing and uncompilable modules (caught, uncaught, aliased), a path with a directory, a three-module cycle. Plus 48 sequences of three or four programs on one interpreter (a module loaded by the first program - which ends normally or with one of five uncaught errors, optionally followed by a program that does not compile - is still loaded, with its state, for the next programs, imported at top level, in a function, through another module, under an alias). Plus `reimport_changes_nothing`: a module that defines globals under names built-ins also have and receives attributes from outside, imported again in every ordered pair of six ways (alias, same name, in a function, in a fiber, in try, through another module) with the module's and the importer's view printed after each. Plus exceptions that cross module frames: a module body that throws / imports a missing, an uncompilable, its importing (cycle) or a throwing module without a handler, or a function of another module that throws / fails an import / throws through its own finally; caught in the importer (main or a module) directly, through a function, or after a finally block that itself uses globals; straight after the handler the importer reads, defines and assigns its own globals and the check confirms where they landed. Plus fibers whose code lives in another module (made by a function of that module, stored in it, or built here from its function), run to their end from main or from a module that then uses its own globals at once. non-trivial = at least two module bodies ran, or an import failed.",
+        "every import graph over {main, a, b, c}: each of the 6 module-to-module edges, 3 self-loops and 3 edges from main independently present or absent (4096 graphs; the quick tier skips those where main imports nothing); every import inside a module sits in its own try/catch and is followed by a use; every module prints when its body runs, defines the same global names, and reads every one of the 30 built-in names; main reads, writes and calls through each module object, imports it again under an alias and compares identity, and probes that nothing leaked. Plus placements: import inside a function called 0/1/2 times, missing and uncompilable modules (caught, uncaught, aliased), a path with a directory, two modules of the same file name in different directories (one a global of main, the other imported without an alias inside a function / block / loop body / lambda), a three-module cycle. Plus 48 sequences of three or four programs on one interpreter (a module loaded by the first program - which ends normally or with one of five uncaught errors, optionally followed by a program that does not compile - is still loaded, with its state, for the next programs, imported at top level, in a function, through another module, under an alias). Plus `reimport_changes_nothing`: a module that defines globals under names built-ins also have and receives attributes from outside, imported again in every ordered pair of six ways (alias, same name, in a function, in a fiber, in try, through another module) with the module's and the importer's view printed after each. Plus exceptions that cross module frames: a module body that throws / imports a missing, an uncompilable, its importing (cycle) or a throwing module without a handler, or a function of another module that throws / fails an import / throws through its own finally; caught in the importer (main or a module) directly, through a function, or after a finally block that itself uses globals; straight after the handler the importer reads, defines and assigns its own globals and the check confirms where they landed. Plus fibers whose code lives in another module (made by a function of that module, stored in it, or built here from its function), run to their end from main or from a module that then uses its own globals at once. non-trivial = at least two module bodies ran, or an import failed.",
         json!({"modules": 4, "graphs": total}),
     );
     // several programs on one interpreter
